@@ -201,6 +201,13 @@ func (e *c14Env) execOut(tc *c14Case) (oracle, note string) {
 	if has("t-mid") {
 		tmid.Append("x-t-mid", "mid")
 	}
+	if has("look") {
+		// custom keys that merely look like protocol keys
+		hmd.Append("grpc-custom", "lc")
+		hmd.Append("content-type-x", "lx")
+		tmd.Append("grpc-statusx", "ls")
+		tmd.Append("trailers", "lt")
+	}
 	reserved := map[string]string{"content-type": "text/evil", "grpc-status": "9", "grpc-message": "forged", "grpc-encoding": "gzip", "grpc-status-details-bin": "AAAA", "trailer": "X-Evil"}
 	for k, v := range reserved {
 		if has("rh:" + k) {
@@ -383,7 +390,8 @@ func c14InCases(thorough bool) []c14Case {
 	rec(nil)
 	protos := []string{"grpc", "web", "webtext", "http"}
 	for _, p := range protos {
-		names := []string{"x-a", "X-A", "X-Mixed-Case"}
+		// plus names that merely look like protocol keys (prefix / suffix of a reserved name): custom all the same
+		names := []string{"x-a", "X-A", "X-Mixed-Case", "Grpc-Custom", "Content-Type-X", "Trailers", "X-Te", "Grpc-Status-Detail", "Tea"}
 		if thorough {
 			names = append(names, "x_under.dot-1", "X9", "a", "x-a-binx", "bin", "x-bin-a")
 		}
@@ -412,7 +420,7 @@ func c14InCases(thorough bool) []c14Case {
 
 func c14OutCases(thorough bool) []c14Case {
 	var out []c14Case
-	custom := []string{"h-two", "h-bin", "both", "t-two", "t-bin", "t-mid"}
+	custom := []string{"h-two", "h-bin", "both", "t-two", "t-bin", "t-mid", "look"}
 	var reservedItems []string
 	for _, k := range []string{"content-type", "grpc-status", "grpc-message", "grpc-encoding", "grpc-status-details-bin", "trailer"} {
 		reservedItems = append(reservedItems, "rh:"+k, "rt:"+k)
@@ -483,7 +491,7 @@ func (e *c14Env) exec(tc *c14Case) (string, string) {
 
 func runC14(c *Ctx) {
 	r := c.Run
-	r.Rule("incoming: protocol{gRPC, gRPC-web, gRPC-web-text, HTTP} × header name{x-a, X-A, X-Mixed-Case} × 1..3 values; '-bin' names × every byte string of length <= 3 over {00,41,fb,ff} in padded and unpadded base64, alone and mixed; outgoing: protocol (plus gRPC and gRPC-web with gzip negotiated) × shape{unary, server-streaming} × outcome{ok, PermissionDenied} × SetHeader vs SendHeader × every subset of {two-valued header, -bin header, same key in header and trailer, two-valued trailer, -bin trailer, trailer set after the first reply} plus each reserved key (content-type, grpc-status, grpc-message, grpc-encoding, grpc-status-details-bin, trailer) as header and as trailer, alone, with all custom items, and all at once; every case on a plain mux and on a mux with pass-through interceptors and a stats handler; distinct = (kind, protocol, shape, outcome, item set, mux options); thorough: incoming -bin values of length <= 4 over {00,41,fb,ff,3e,3f}, more header names, and every byte string of length <= 3 as outgoing -bin header and trailer value")
+	r.Rule("incoming: protocol{gRPC, gRPC-web, gRPC-web-text, HTTP} × header name{x-a, X-A, X-Mixed-Case, six names that are prefixes/suffixes/extensions of reserved keys} × 1..3 values; '-bin' names × every byte string of length <= 3 over {00,41,fb,ff} in padded and unpadded base64, alone and mixed; outgoing: protocol (plus gRPC and gRPC-web with gzip negotiated) × shape{unary, server-streaming} × outcome{ok, PermissionDenied} × SetHeader vs SendHeader × every subset of {two-valued header, -bin header, same key in header and trailer, two-valued trailer, -bin trailer, trailer set after the first reply, custom keys that look like protocol keys} plus each reserved key (content-type, grpc-status, grpc-message, grpc-encoding, grpc-status-details-bin, trailer) as header and as trailer, alone, with all custom items, and all at once; every case on a plain mux and on a mux with pass-through interceptors and a stats handler; distinct = (kind, protocol, shape, outcome, item set, mux options); thorough: incoming -bin values of length <= 4 over {00,41,fb,ff,3e,3f}, more header names, and every byte string of length <= 3 as outgoing -bin header and trailer value")
 	r.Assume("http.Header canonicalises names as net/http does when parsing the wire", "trailers are demanded on gRPC and gRPC-web only")
 	cases := append(c14InCases(c.Thorough()), c14OutCases(c.Thorough())...)
 	// everything again on a mux with pass-through interceptors and a stats handler: options
